@@ -237,7 +237,13 @@ func fnClientList(ctx *cmdContext, args map[string]any) (output respValue, err e
 			_, included = ids[cs.id]
 		}
 		if included {
-			info := ctx.info(cs)
+			var info string
+			if ctx.multi {
+				// replayed by EXEC, which already owns the data store
+				info = ctx.infoUnlocked(cs)
+			} else {
+				info = ctx.info(cs)
+			}
 			list.WriteString(info)
 		}
 	})
